@@ -216,7 +216,10 @@ def rule_axis_py(ctx, py):
     f = py.fn("rdgridspace.RDGridSpace.get_neighbors")
     disp = set()
     from .. import pysym
-    for st in [pysym.inline_stmt(s, f, stop={"x", "y", "z", "neighbors"}) for s in f.body if isinstance(s, ast.If)]:
+    def appends(s_):
+        return any(isinstance(c_, ast.Call) and isinstance(c_.func, ast.Attribute) and c_.func.attr == "append"
+                   for c_ in ast.walk(s_))
+    for st in [pysym.inline_stmt(s, f, stop={"x", "y", "z", "neighbors"}) for s in f.body if isinstance(s, ast.If) and appends(s)]:
         tups = [t for t in ast.walk(st) if isinstance(t, ast.Tuple) and len(t.elts) == 3]
         ctx.need(len(tups) == 1, R, "get_neighbors: conditional append without one coordinate triple")
         t = tups[0]
@@ -268,6 +271,26 @@ def rule_axis_py(ctx, py):
         rets = pysym.exec_returns(g)
     except pysym.NotModelled as e:
         ctx.error(R, "are_neighbors: %s" % e)
+    # a result computed from the positions without taking them apart into coordinates (no get_cell_coordinates, no % or //)
+    # can only depend on the linear indices themselves: whatever it answers for the pair (0, 1) it answers for (w-1, w), the
+    # end of one row and the start of the next, which are not adjacent
+    extra = []
+    for rnode, val, cnd in rets:
+        if val is None:
+            continue
+        if isinstance(val, ast.Compare) and len(val.ops) == 1 and isinstance(val.ops[0], ast.Eq):
+            continue
+        t = pyfe.src(val)
+        names = {x.id for x in ast.walk(val) if isinstance(x, ast.Name)}
+        decomposed = "get_cell_coordinates" in t or any(isinstance(x, ast.BinOp) and isinstance(x.op, (ast.Mod, ast.FloorDiv))
+                                                        for x in ast.walk(val))
+        if {"position1", "position2"} & names and not decomposed and not (isinstance(val, ast.Constant)):
+            extra.append(val)
+            ctx.violation("C15.DISP", rnode, g._qual, "are_neighbors: return %s" % t[:70],
+                          "this answer is computed from the linear indices without their coordinates: cells at the end of one row "
+                          "and the start of the next (indices w-1 and w) get the answer of a true neighbour pair; the pairwise test "
+                          "disagrees with get_neighbors and with the engine")
+    rets = [r_ for r_ in rets if not any(r_[1] is e_ for e_ in extra)]
     ctx.need(len(rets) == 1 and isinstance(rets[0][1], ast.Compare) and len(rets[0][1].ops) == 1, R,
              "are_neighbors: a single `return <sum> == 1` not found")
     cmpn = rets[0][1]
